@@ -116,6 +116,46 @@ def theorems_in(path: Path):
     return [prefix + m for m in re.findall(r"^theorem\s+([A-Za-z_][\w'.]*)", src, flags=re.M)]
 
 
+def anchored_files(pid: str):
+    for line in (VERIF / "properties.jsonl").read_text().splitlines():
+        if line.strip():
+            p = json.loads(line)
+            if p["id"] == pid:
+                return list(p["anchors"]["files"])
+    return []
+
+
+def source_fingerprint(pid: str) -> dict:
+    """file -> hash of its normalised content (python: AST dump without docstrings/comments/layout; other files: bytes).
+    Used for *scheduling only*: when an anchored file differs from the fingerprint recorded for the tree the checks were
+    last validated on (tools/fingerprints.json), the quick tier explores more (never an alarm by itself)."""
+    import ast
+    out = {}
+    for rel in anchored_files(pid):
+        f = REPO / rel
+        try:
+            raw = f.read_bytes()
+            if rel.endswith(".py"):
+                tree = ast.parse(raw)
+                for node in ast.walk(tree):
+                    body = getattr(node, "body", None)
+                    if isinstance(body, list) and body and isinstance(body[0], ast.Expr) and isinstance(body[0].value, ast.Constant) \
+                            and isinstance(body[0].value.value, str):
+                        body.pop(0)
+                raw = ast.dump(tree, include_attributes=False).encode()
+            out[rel] = hashlib.blake2b(raw, digest_size=12).hexdigest()
+        except Exception as e:  # noqa: BLE001
+            out[rel] = f"unreadable:{type(e).__name__}"
+    return out
+
+
+def recorded_fingerprints() -> dict:
+    try:
+        return json.loads((VERIF / "tools" / "fingerprints.json").read_text())
+    except Exception:  # noqa: BLE001
+        return {}
+
+
 class LakeLock:
     """Exclusive lock over translate + build + audit (Gen/*.lean and .lake/build are shared state)."""
 
@@ -260,12 +300,22 @@ def run_driver(driver: str, lines):
 # --------------------------------------------------------------------------------------
 
 def worker(args):
-    modname, tier, seed, shard, nshards, have_driver, known = args
+    modname, tier, seed, shard, nshards, have_driver, known = args[:7]
+    deadline = args[7] if len(args) > 7 else None
     mod = importlib.import_module(modname)
     rng = random.Random(seed * 7919 + shard)
-    cases = list(mod.gen(tier, rng, shard, nshards))
+    if deadline is None:
+        cases = list(mod.gen(tier, rng, shard, nshards))
+        impl_out = [call_impl(mod, s, l) for s, l in cases]
+    else:
+        # time-capped exploration (escalation after a source change): stop generating when the budget is used up
+        cases, impl_out = [], []
+        for s, l in mod.gen(tier, rng, shard, nshards):
+            cases.append((s, l))
+            impl_out.append(call_impl(mod, s, l))
+            if time.time() > deadline:
+                break
     lines = [c[1] for c in cases]
-    impl_out = [call_impl(mod, s, l) for s, l in cases]
     model_out = run_driver(mod.DRIVER, lines) if (have_driver and lines) else [None] * len(lines)
     stats = {"n": len(cases), "by_stream": {}, "outcomes": {}, "distinct_nontrivial": set(), "samples": {}}
     diffs = []
@@ -347,9 +397,16 @@ def main():
     ap.add_argument("pid")
     ap.add_argument("--tier", default=os.environ.get("VERIF_TIER", "quick"), choices=["quick", "thorough"])
     ap.add_argument("--replay")
+    ap.add_argument("--update-fingerprints", action="store_true",
+                    help="record the fingerprints of the anchored sources of every property for the current tree (coordinator use)")
     ap.add_argument("--jobs", type=int, default=int(os.environ.get("VERIF_JOBS", "0")))
     args = ap.parse_args()
     pid = args.pid.upper()
+    if args.update_fingerprints:
+        ids = [json.loads(l)["id"] for l in (VERIF / "properties.jsonl").read_text().splitlines() if l.strip()]
+        (VERIF / "tools" / "fingerprints.json").write_text(json.dumps({i: source_fingerprint(i) for i in ids}, indent=1, sort_keys=True))
+        print("fingerprints recorded for", len(ids), "properties")
+        return 0
     seed = int(os.environ.get("VERIF_SEED", "0"))
     t0 = time.time()
     modname = f"harness.{pid.lower()}"
@@ -399,6 +456,35 @@ def main():
             samples.setdefault(k, v)
         distinct.update(bytes(x) for x in st["distinct_nontrivial"])
         diffs += df
+
+    # escalation (scheduling only): an anchored source file differs from the recorded fingerprint and the ordinary volume found
+    # nothing -> spend a bounded extra budget on the thorough generators / a second seed before answering
+    fp_now = source_fingerprint(pid)
+    fp_rec = recorded_fingerprints().get(pid, {})
+    changed_files = sorted(f for f in fp_now if fp_rec.get(f) not in (None, fp_now[f]))
+    escalated = None
+    budget = int(os.environ.get("VERIF_ESCALATE_S", "240"))
+    if changed_files and not diffs and lean["ok"] and search_tier == "quick" and budget > 0:
+        escalated = {"files": changed_files, "budget_s": budget}
+        ejobs = min(16, os.cpu_count() or 4)
+        deadline = time.time() + budget
+        try:
+            with mp.Pool(ejobs) as pool:
+                more = pool.map(worker, [(modname, "thorough", seed + 1, i, ejobs, have_driver, known, deadline) for i in range(ejobs)])
+        except Exception:  # noqa: BLE001
+            traceback.print_exc()
+            more = []
+        extra_n = 0
+        for st, df in more:
+            extra_n += st["n"]
+            total += st["n"]
+            for k, v in st["by_stream"].items():
+                by_stream[k] = by_stream.get(k, 0) + v
+            for k, v in st["outcomes"].items():
+                outcomes[k] = outcomes.get(k, 0) + v
+            distinct.update(bytes(x) for x in st["distinct_nontrivial"])
+            diffs += df
+        escalated["extra_cases"] = extra_n
 
     harness_err = [d for d in diffs if d.get("kind") == "harness"]
     if harness_err:
@@ -476,6 +562,9 @@ def main():
             "known_findings_hit": sorted(known_hit),
             "workers": jobs,
             "correspondence_tier": search_tier,
+            "source_fingerprint": fp_now,
+            "source_changed_since_recorded": changed_files,
+            "escalation": escalated,
         },
         "assumptions": list(getattr(mod, "ASSUMPTIONS", [])),
         "wall_s": round(wall, 2),
